@@ -28,7 +28,8 @@ for d in seeded/*/; do
     C05-trio-pool-timeout-cancel-called) continue;;  # neutralised by repo fix bcb0a82 (see its meta.json)
     C01-h2-flush-acks-before-dispatching-read-events) continue;;  # not reported: hidden behind the open finding F-C07 (see its meta.json)
     # written for one property, reported by the check of another (see each meta.json)
-    C07-h2-validate-head-before-slot-wait|C04-response-close-finally-drops-shield) id=C05;;
+    C07-h2-validate-head-before-slot-wait|C04-response-close-finally-drops-shield|C07-pool-response-close-finally-instead-of-shield) id=C05;;
+    C11-tunnel-connect-lock-check-outside-lock|C08-h2-setup-count-dropped-before-stream-slot) id=C12;;
     C10-url-origin-memoised-on-mutable-url) id=C19;;
     C03-h2-stale-flow-credit-across-frames) id=C13;;
   esac
